@@ -43,7 +43,17 @@ def read_vcat(r, nc):
             raise MachineryError(f'kernel v_matrix disagrees with the TLA+ V for {s}')
         if nc > 3 and np.min(np.linalg.eigvalsh(np.array(v, dtype=float))) <= 0:
             raise MachineryError(f'V({s}) is not positive definite')
-    return {'sigmas': sig, 'V': V}
+    SH = None
+    for o in r.iter_emitted():
+        if isinstance(o, dict) and 'shcat' in o:
+            SH = o['shcat']
+            break
+    if SH is None:
+        raise MachineryError('TLC did not print the Sigma^ catalogue')
+    for s, sh in zip(sig, SH):       # kernel sig_hat against the exact integer matrices
+        if not np.array_equal(C.sig_hat(nc, C.sigma_array(s)), np.array(sh, dtype=float)):
+            raise MachineryError(f'kernel sig_hat disagrees with the TLA+ Sigma^ for {s}')
+    return {'sigmas': sig, 'V': V, 'SH': SH}
 
 
 def replay(ctx, r, vcat, nc, pool):
@@ -187,7 +197,10 @@ def run(ctx):
                        'degenerate inputs (zero vector for cosine types, constant vector for correlation types and '
                        'tau-b, coincident points for Bures) excluded by AdmVec of Compare.tla and counted',
                        'Bures values: exact only for point configurations of dimension <= 2; sqrtm kernel beyond',
-                       'neg_riem_dist is not named by the property and not checked']
+                       'neg_riem_dist is not named by the property: checked as spec growth (keys C03/riem/...); its kernel is a '
+                       'global grid search + polishing, tolerance 2e-3 (Nelder-Mead defaults of the code)',
+                       'the second Bures implementations (_bures_similarity_second_way, _sq_bures_metric_second_way) are called '
+                       'directly on the double-centred kernels']
     ctx.exhaustive = False      # TLC's theorems are exhaustive on every grid; the replay of pairs4 / stacks is sampled
     with mp.Pool(16) as pool:
         # 1. all pairs of vectors, n_cond = 3, values -1..2, every method and sigma, perm + swap moves
@@ -237,6 +250,24 @@ def run(ctx):
                          moveconfigs='MoveConfigsSmall', emitmod=1, moveemitmod=1)
             count_excluded(ctx, r, 2 * 64 ** 2, 'bures3')
         ctx.sample({'run': 'bures', 'vector': next(o for o in r.iter_emitted() if isinstance(o, dict) and o.get('t') == 'v')})
+        # 4b. spec growth beyond the statement: neg_riem_dist (exact G~, Sigma^, congruence under permutations in TLA+;
+        #     the minimisation over (t0, t1) by the kernel riem_value) - sigma_k None and the three matrices
+        rm = ('neg_riem_dist',)
+        if thorough:
+            run_grid(ctx, pool, 'riem3', 3, None, methods=rm, px=2, py=1, moves=('perm', 'swap'),
+                     moveconfigs='MoveConfigsSmall', emitmod=6, moveemitmod=6)
+            run_grid(ctx, pool, 'riem4', 4, None, methods=rm, px=1, py=1, pz=1, configs='ConfigsOrigin',
+                     moves=('perm', 'swap'), moveconfigs='MoveConfigsSmall', emitmod=60, moveemitmod=300)
+        else:
+            run_grid(ctx, pool, 'riem3', 3, None, methods=rm, px=1, py=1, moves=('perm', 'swap'),
+                     moveconfigs='MoveConfigsSmall', emitmod=8, moveemitmod=2)
+        # 4c. guards of the dispatcher, a missing condition = the comparison of the remaining conditions
+        nev, bad, unsup = C.guard_checks()
+        ctx.count(nev)
+        for key, what, case in bad:
+            ctx.violation(key, what, case)
+        for cls, msg in unsup:
+            ctx.unsupported_case(cls, msg)
         # 5. float tier (kernels were validated against the exact statistics on every vector above)
         ctx.extra['float_tier_evaluations'] = float_tier(ctx, pool, 4000 if thorough else 400)
         # 6. implementation -> specification
